@@ -3,4 +3,6 @@ import RaftModel.Inflights
 import RaftModel.Storage
 import RaftModel.Quorum
 import RaftModel.ConfChange
+import RaftModel.Unstable
+import RaftModel.RaftLog
 import RaftModel.Proto
